@@ -403,12 +403,14 @@ theorem interpFields_congr (ss : Bool) (fields : List Field) (kvs kvs' : Entries
 def timeSafe (_u : TUnit) (n : Int) (modulate : Bool) (delay : Nat) : Bool :=
   !(modulate && n == 0) && decide (n.toNat ≤ TIME_SAFE) && decide (delay ≤ TIME_SAFE)
 
-theorem timeTriggerNew_safe (u : TUnit) (n : Int) (m : Bool) (d : Nat) (h : timeSafe u n m d = true) :
-    timeTriggerNew u n m d = .ok () := by
+/-- holds for the historical and for the repaired constructor -/
+theorem timeTriggerNewWith_safe (total : Bool) (u : TUnit) (n : Int) (m : Bool) (d : Nat)
+    (h : timeSafe u n m d = true) : ∀ w, timeTriggerNewWith total u n m d ≠ .panic w := by
+  intro w
   simp only [timeSafe, Bool.and_eq_true, Bool.not_eq_true', Bool.and_eq_false_iff, beq_eq_false_iff_ne,
     decide_eq_true_eq] at h
   obtain ⟨⟨h1, h2⟩, h3⟩ := h
-  unfold timeTriggerNew
+  unfold timeTriggerNewWith
   have hz : ¬ (m = true ∧ n = 0) := by
     rintro ⟨hm, hn⟩
     rcases h1 with h1 | h1
@@ -418,8 +420,18 @@ theorem timeTriggerNew_safe (u : TUnit) (n : Int) (m : Bool) (d : Nat) (h : time
     rintro ⟨_, hgt⟩
     have : TIME_SAFE ≤ TIMEDELTA_MAX_SECS := by decide
     omega
-  simp only [timeTriggerValidated, Bool.false_eq_true, if_false]
-  rw [if_neg hz, if_neg hs, if_pos ⟨h2, h3⟩]
+  cases total with
+  | true => simp
+  | false => rw [if_neg (by simp), if_neg hz, if_neg hs, if_pos ⟨h2, h3⟩]; simp
+
+theorem timeTriggerNew_safe (u : TUnit) (n : Int) (m : Bool) (d : Nat) (h : timeSafe u n m d = true) :
+    ∀ w, timeTriggerNew u n m d ≠ .panic w :=
+  timeTriggerNewWith_safe _ u n m d h
+
+/-- the repaired constructor is total: no configuration makes it panic -/
+theorem timeTriggerNewWith_total (u : TUnit) (n : Int) (m : Bool) (d : Nat) :
+    timeTriggerNewWith true u n m d = .ok () := by
+  simp [timeTriggerNewWith]
 
 def triggerSafe : Typed → Bool
   | .tagged kind _ body =>
@@ -461,8 +473,7 @@ theorem constructTrigger_safe (t : Typed) (h : triggerSafe t = true) :
       split
       · rename_i u n hi
         simp only [hi] at h
-        rw [timeTriggerNew_safe _ _ _ _ h]
-        simp
+        exact timeTriggerNew_safe _ _ _ _ h w
       · simp
     · simp [hk]
   · simp
@@ -566,5 +577,162 @@ theorem appendersLossy_safe (xs : List (Key × Typed)) (h : ∀ nt ∈ xs, appen
       | ok p => simp
       | err e => simp
       | panic w' => exact absurd hr (h2 w')
+
+/-! ### the same chain when NO trigger constructor can panic (after the repairs) -/
+
+theorem constructTrigger_total (hT : ∀ u n m d w, timeTriggerNew u n m d ≠ .panic w) (t : Typed) :
+    ∀ w, constructTrigger t ≠ .panic w := by
+  intro w
+  unfold constructTrigger
+  split
+  · split
+    · split
+      · exact hT _ _ _ _ w
+      · simp
+    · simp
+  · simp
+
+theorem constructPolicy_total (hT : ∀ u n m d w, timeTriggerNew u n m d ≠ .panic w) (p : Typed) :
+    ∀ w, constructPolicy p ≠ .panic w := by
+  intro w
+  unfold constructPolicy
+  split
+  · rename_i k ex body
+    cases ht : body.field (c!"trigger") with
+    | none =>
+      simp only
+      cases hr : body.field (c!"roller") with
+      | none => simp
+      | some r => exact constructRoller_no_panic r w
+    | some t =>
+      simp only
+      cases hc : constructTrigger t with
+      | panic w' => exact absurd hc (constructTrigger_total hT t w')
+      | err e => simp
+      | ok u =>
+        cases hr : body.field (c!"roller") with
+        | none => simp
+        | some r => exact constructRoller_no_panic r w
+  · simp
+
+theorem constructAppender_total (hT : ∀ u n m d w, timeTriggerNew u n m d ≠ .panic w)
+    (name : Key) (levels : List Nat) (kind : Key) (body : Typed) :
+    ∀ w, constructAppender name levels kind body ≠ .panic w := by
+  intro w
+  unfold constructAppender
+  simp only
+  split
+  · simp
+  · split
+    · split <;> simp
+    · cases hp : body.field (c!"policy") with
+      | none => simp only; split <;> simp
+      | some p =>
+        simp only
+        cases hc : constructPolicy p with
+        | panic w' => exact absurd hc (constructPolicy_total hT p w')
+        | err e => simp
+        | ok u => simp only; split <;> simp
+
+theorem appenderOutcome_total (hT : ∀ u n m d w, timeTriggerNew u n m d ≠ .panic w)
+    (name : Key) (t : Typed) : ∀ w, (appenderOutcome name t).2 ≠ .panic w := by
+  intro w
+  unfold appenderOutcome
+  split
+  · rename_i kind extras body
+    simp only
+    split
+    · simp
+    · cases hc : constructAppender name
+          ((Typed.asList (tlookup (c!"filters") extras)).filterMap filterOutcome) kind body with
+      | panic w' => exact absurd hc (constructAppender_total hT name _ kind body w')
+      | err e => simp
+      | ok d => simp
+  · simp
+
+theorem appendersLossy_total (hT : ∀ u n m d w, timeTriggerNew u n m d ≠ .panic w)
+    (xs : List (Key × Typed)) : ∀ w, appendersLossy xs ≠ .panic w := by
+  induction xs with
+  | nil => intro w; simp [appendersLossy]
+  | cons x xs ih =>
+    intro w
+    obtain ⟨name, t⟩ := x
+    have h1 := appenderOutcome_total hT name t
+    simp only [appendersLossy]
+    rcases hao : appenderOutcome name t with ⟨errs, r⟩
+    rw [hao] at h1
+    cases r with
+    | panic w' => exact absurd rfl (h1 w')
+    | kept d =>
+      cases hr : appendersLossy xs with
+      | ok p => simp
+      | err e => simp
+      | panic w' => exact absurd hr (ih w')
+    | dropped =>
+      cases hr : appendersLossy xs with
+      | ok p => simp
+      | err e => simp
+      | panic w' => exact absurd hr (ih w')
+
+/-! ### lazily typed values never fail -/
+
+theorem interp_lazy_total (ss : Bool) (s : Schema) (v : Value) :
+    ∃ t, interp ss (.lazy s) v = .ok t := by
+  simp only [interp]
+  cases interp ss s v with
+  | ok t => exact ⟨t, rfl⟩
+  | error e => exact ⟨.failed e, rfl⟩
+
+theorem interp_lazy_error (ss : Bool) (s : Schema) (v : Value) (e : Err)
+    (h : interp ss s v = .error e) : interp ss (.lazy s) v = .ok (.failed e) := by
+  simp only [interp, h]
+
+theorem interp_lazy_ok (ss : Bool) (s : Schema) (v : Value) (t : Typed)
+    (h : interp ss s v = .ok t) : interp ss (.lazy s) v = .ok t := by
+  simp only [interp, h]
+
+theorem mapEntries_total (f : Value → Except Err Typed) (hf : ∀ v, ∃ t, f v = .ok t) (kvs : Entries) :
+    ∃ ts, mapEntries f kvs = .ok ts := by
+  induction kvs with
+  | nil => exact ⟨[], rfl⟩
+  | cons x xs ih =>
+    obtain ⟨k, v⟩ := x
+    obtain ⟨t, ht⟩ := hf v
+    obtain ⟨ts, hts⟩ := ih
+    exact ⟨(k, t) :: ts, by simp only [mapEntries, ht, hts]⟩
+
+theorem mapVals_total (f : Value → Except Err Typed) (hf : ∀ v, ∃ t, f v = .ok t) (xs : List Value) :
+    ∃ ts, mapVals f xs = .ok ts := by
+  induction xs with
+  | nil => exact ⟨[], rfl⟩
+  | cons v vs ih =>
+    obtain ⟨t, ht⟩ := hf v
+    obtain ⟨ts, hts⟩ := ih
+    exact ⟨t :: ts, by simp only [mapVals, ht, hts]⟩
+
+/-- a table typed entry by entry: inserting or removing one entry leaves the typing of every other
+entry unchanged (any entry schema) -/
+theorem interp_mapOf_insert (ss : Bool) (s : Schema) (xs ys : Entries) (name : Key) (v : Value)
+    (txs tys : List (Key × Typed)) (t : Typed)
+    (hx : interp ss (.mapOf s) (.map xs) = .ok (.dict txs))
+    (hy : interp ss (.mapOf s) (.map ys) = .ok (.dict tys))
+    (hv : interp ss s v = .ok t) :
+    interp ss (.mapOf s) (.map (xs ++ (name, v) :: ys)) = .ok (.dict (txs ++ (name, t) :: tys))
+    ∧ interp ss (.mapOf s) (.map (xs ++ ys)) = .ok (.dict (txs ++ tys)) := by
+  have ex : mapEntries (fun v => interp ss s v) xs = .ok txs := by
+    simp only [interp] at hx
+    cases h : mapEntries (fun v => interp ss s v) xs with
+    | error e => rw [h] at hx; cases hx
+    | ok ts => rw [h] at hx; cases hx; rfl
+  have ey : mapEntries (fun v => interp ss s v) ys = .ok tys := by
+    simp only [interp] at hy
+    cases h : mapEntries (fun v => interp ss s v) ys with
+    | error e => rw [h] at hy; cases hy
+    | ok ts => rw [h] at hy; cases hy; rfl
+  have ev : mapEntries (fun v => interp ss s v) ((name, v) :: ys) = .ok ((name, t) :: tys) := by
+    simp only [mapEntries, hv, ey]
+  constructor
+  · simp only [interp, mapEntries_append _ xs _ txs _ ex ev]
+  · simp only [interp, mapEntries_append _ xs _ txs _ ex ey]
 
 end Log4rs.ConfigDoc
